@@ -52,6 +52,10 @@ class Ref:
                 add((';', ('TOP', (), 0, 0), True, 0))
             elif self.semi_in_parens and px > 0:
                 add((';', ('PLAIN', stack, px, cx), False, 0))
+            if self.semi_in_parens and px == 0 and not stack:
+                # a stray closing parenthesis is ignored by the reference; whatever it does to the real counter
+                # must not leak into the next statement (stack element 'S' remembers that one was seen, once)
+                add((')', ('PLAIN', ('S',), px, cx), False, 0))
         elif mode == 'HDR0':
             for w in ('function', 'procedure', 'trigger'):
                 add((w, ('HDR', (), 0, 0), False, 0))
